@@ -444,6 +444,7 @@ Proof.
   intros hash256 total bits hs.
   unfold populate_tree, populate_tree_rec, mt_init, populate_fuel.
   destruct (total <? 1)%Z eqn:Et; [reflexivity|]. apply Z.ltb_ge in Et. cbn [bind].
+  destruct (all32 hs); [|reflexivity]. cbn [negb].
   set (n := Z.to_nat total). set (md := max_depth total).
   assert (Hn : 1 <= n) by (unfold n; lia).
   set (init := map (fun depth => repeat None (width n (md - depth))) (seq 0 (S md))).
@@ -481,16 +482,18 @@ Proof.
   rewrite machine_eq_traversal. reflexivity.
 Qed.
 
-Lemma proof_complete_machine : forall (hash256 : bytes -> bytes) (ids : list bytes) (matches : list bool),
-  ids <> [] -> length matches = length ids ->
+Lemma proof_complete_machine : forall (hash256 : bytes -> bytes),
+  (forall x, length (hash256 x) = 32%nat) ->
+  forall (ids : list bytes) (matches : list bool),
+  ids <> [] -> Forall (fun t => length t = 32%nat) ids -> length matches = length ids ->
   let txids := map (@rev Z) ids in
   let '(total, hashes, flags) := bip37_proof hash256 txids matches in
   total = zlen ids /\
   mb_is_valid hash256 (rev (consensus_root hash256 txids)) total (map (@rev Z) hashes) flags
   = Ok (true, sel ids matches).
 Proof.
-  intros hash256 ids matches Hne Hlen txids.
-  pose proof (proof_complete hash256 ids matches Hne Hlen) as H. cbv zeta in H. fold txids in H.
+  intros hash256 HL ids matches Hne Hids Hlen txids.
+  pose proof (proof_complete hash256 HL ids matches Hne Hids Hlen) as H. cbv zeta in H. fold txids in H.
   destruct (bip37_proof hash256 txids matches) as [[total hashes] flags].
   rewrite mb_is_valid_eq_rec. exact H.
 Qed.
